@@ -209,3 +209,22 @@ package transform
 //@   assert [xy-key-xy] qbits(qkey(x, y, z), 0, z) == x && qbits(qkey(x, y, z), 1, z) == y
 //@   assert [key-xy-key] qkey(qbits(q, 0, z), qbits(q, 1, z), z) == q
 //@ end
+
+//@ -- C13: tile keys -> extended IDs: footprint kept, vertical indices = the covering range of C12, de-duplicated
+//@ define tilevalid(h, vz, e, off, outv) = 0 <= h && h <= 35 && 0 <= outv && outv <= 35
+//@ func ConvertTileXYZsToExtendedSpatialIDs
+//@   props C13 C15 C16
+//@   nooverflow
+//@   requires offok(zBaseOffset) && 0 <= zBaseExponent && zBaseExponent <= 35
+//@   requires forall k :: 0 <= k && k < len(request) ==> request[k] != nil && 0 <= request[k].vZoom && request[k].vZoom <= 35
+//@   ensures [nil-on-error] r1 != nil ==> len(r0) == 0
+//@   ensures [nodup] nodup(r0)
+//@   ensures [footprint-and-range] r1 == nil ==> (forall e: object_ExtendedSpatialID :: in(e, r0) <==> (exists k :: 0 <= k && k < len(request) && e.hZoom == request[k].hZoom && e.x == request[k].x && e.y == request[k].y && e.vZoom == outputVZoom && wzmin(request[k].z, request[k].vZoom, outputVZoom, zBaseExponent, zBaseOffset) <= e.z && e.z <= wzmax(request[k].z, request[k].vZoom, outputVZoom, zBaseExponent, zBaseOffset)))
+//@   ensures [error-iff] r1 == nil <==> (forall k :: 0 <= k && k < len(request) ==> (0 <= request[k].hZoom && request[k].hZoom <= 35 && 0 <= outputVZoom && outputVZoom <= 35 && kexists(request[k].z, request[k].vZoom) && 0 - pow2(outputVZoom) <= wzmin(request[k].z, request[k].vZoom, outputVZoom, zBaseExponent, zBaseOffset) && wzmax(request[k].z, request[k].vZoom, outputVZoom, zBaseExponent, zBaseOffset) < pow2(outputVZoom)))
+//@   loop 0 invariant [ok-so-far] forall k :: 0 <= k && k < $i ==> (0 <= request[k].hZoom && request[k].hZoom <= 35 && 0 <= outputVZoom && outputVZoom <= 35 && kexists(request[k].z, request[k].vZoom) && 0 - pow2(outputVZoom) <= wzmin(request[k].z, request[k].vZoom, outputVZoom, zBaseExponent, zBaseOffset) && wzmax(request[k].z, request[k].vZoom, outputVZoom, zBaseExponent, zBaseOffset) < pow2(outputVZoom))
+//@   loop 0 invariant [members] forall e: object_ExtendedSpatialID :: has(extendedSpatialIDsMap, e) <==> (exists k :: 0 <= k && k < $i && e.hZoom == request[k].hZoom && e.x == request[k].x && e.y == request[k].y && e.vZoom == outputVZoom && wzmin(request[k].z, request[k].vZoom, outputVZoom, zBaseExponent, zBaseOffset) <= e.z && e.z <= wzmax(request[k].z, request[k].vZoom, outputVZoom, zBaseExponent, zBaseOffset))
+//@   loop 1 invariant [ok-so-far] (forall k :: 0 <= k && k < $i0 ==> (0 <= request[k].hZoom && request[k].hZoom <= 35 && 0 <= outputVZoom && outputVZoom <= 35 && kexists(request[k].z, request[k].vZoom) && 0 - pow2(outputVZoom) <= wzmin(request[k].z, request[k].vZoom, outputVZoom, zBaseExponent, zBaseOffset) && wzmax(request[k].z, request[k].vZoom, outputVZoom, zBaseExponent, zBaseOffset) < pow2(outputVZoom))) && 0 <= request[$i0].hZoom && request[$i0].hZoom <= 35 && 0 <= outputVZoom && outputVZoom <= 35 && kexists(request[$i0].z, request[$i0].vZoom) && 0 - pow2(outputVZoom) <= wzmin(request[$i0].z, request[$i0].vZoom, outputVZoom, zBaseExponent, zBaseOffset) && wzmax(request[$i0].z, request[$i0].vZoom, outputVZoom, zBaseExponent, zBaseOffset) < pow2(outputVZoom)
+//@   loop 1 invariant [bounds] zMin == wzmin(request[$i0].z, request[$i0].vZoom, outputVZoom, zBaseExponent, zBaseOffset) && zMax == wzmax(request[$i0].z, request[$i0].vZoom, outputVZoom, zBaseExponent, zBaseOffset) && zMin <= z && z <= zMax + 1
+//@   loop 1 invariant [members] forall e: object_ExtendedSpatialID :: has(extendedSpatialIDsMap, e) <==> ((exists k :: 0 <= k && k < $i0 && e.hZoom == request[k].hZoom && e.x == request[k].x && e.y == request[k].y && e.vZoom == outputVZoom && wzmin(request[k].z, request[k].vZoom, outputVZoom, zBaseExponent, zBaseOffset) <= e.z && e.z <= wzmax(request[k].z, request[k].vZoom, outputVZoom, zBaseExponent, zBaseOffset)) || (e.hZoom == request[$i0].hZoom && e.x == request[$i0].x && e.y == request[$i0].y && e.vZoom == outputVZoom && zMin <= e.z && e.z < z))
+//@   loop 2 invariant len(extendedSpatialIDs) == $n && (forall k :: 0 <= k && k < $n ==> extendedSpatialIDs[k] == $key(k))
+//@ end
